@@ -266,7 +266,7 @@ def opVerify (req : Json) : Except String Json := do
       let out := verify Glob.fnmatch w fuel md keys dir params name
       let after := callerAfter w md keys params
       -- do the hypotheses of `honest_chain_verifies` hold for this world, and what does the theorem then predict?
-      let honest := match honestCheck Glob.fnmatch w md keys dir params name with
+      let honest := match honestCheck Glob.fnmatch w fuel md keys dir params name with
         | none => Json.null
         | some pred => Json.mkObj [("result", resultJson pred.result),
             ("trace", .arr (pred.trace.map (fun c => Json.arr (c.map ofStr).toArray)).toArray)]
